@@ -14,6 +14,12 @@ What the code does today is modelled, not what it should do:
   `TransferState` for `<data/>`, but NOT for `<open/>` and `<close/>`.
 * The final check (`checkData`) compares the byte count only if a non-zero size was announced
   and the MD5 only if a hash was announced.
+* `QXmppTransferIncomingJob::writeData` calls `QIODevice::write` ONCE per block: it neither loops on
+  a short write nor fails the job on an error.  The byte counter grows by what the device reported
+  as written (`d->done += written`), the running MD5 is fed the WHOLE block whenever the write did
+  not fail, a failed write (-1) is silently skipped, and the caller acknowledges the block and
+  advances its sequence counter in every case.  So the receiver's device content (`acc`), the bytes
+  fed to the hash (`fed`) and the counter (`done = |acc|`) can differ; all three are modelled.
 * The sender sends the next block on every `result`, closes on `error`, and reports `NoError`
   the moment it has sent `<close/>`; responses are matched by the id of the last request.
 
@@ -57,6 +63,29 @@ structure Reply where
   err : Option Cond
   deriving DecidableEq, Repr
 
+/-! ### the receiver's output device -/
+
+/-- how the `QIODevice` handed to `accept(QIODevice*)` takes a `write()` -/
+inductive Dev
+  /-- takes everything (QBuffer, a file on a healthy disk) -/
+  | unlimited
+  /-- takes at most `k` bytes per call and reports that count -/
+  | perWrite (k : Nat)
+  /-- holds at most `m` bytes in total; takes what still fits and reports that count (0 once full) -/
+  | fullAfter (m : Nat)
+  /-- a write that would go beyond byte `m` fails with -1 and stores nothing -/
+  | failAt (m : Nat)
+  deriving DecidableEq, Repr
+
+/-- result of `write()` of `n` bytes on a device already holding `held ()` bytes: `none` = -1, `some w` = `w` bytes
+taken (`held` is a thunk only so that the executable model does not measure the device on every block) -/
+def Dev.accept (d : Dev) (held : Unit → Nat) (n : Nat) : Option Nat :=
+  match d with
+  | .unlimited => some n
+  | .perWrite k => some (min k n)
+  | .fullAfter m => some (min n (m - held ()))
+  | .failAt m => if held () + n > m then none else some n
+
 /-! ### receiving job (QXmppTransferIncomingJob + the ibb*IqReceived handlers) -/
 
 structure Recv where
@@ -70,8 +99,12 @@ structure Recv where
   error : JError := .none
   /-- `d->ibbSequence` (quint16, wraps) -/
   expected : UInt16 := 0
-  /-- bytes written to the output device, newest first -/
+  /-- bytes the output device actually took, newest first -/
   accRev : List UInt8 := []
+  /-- bytes fed to the running MD5 (`d->hash.addData`; the code only does it when a hash was announced, which is also
+  the only case in which it is looked at), newest first -/
+  fedRev : List UInt8 := []
+  dev : Dev := .unlimited
   blockSize : Nat := 16384
   finishedSignals : Nat := 0
   errorSignals : Nat := 0
@@ -79,6 +112,16 @@ structure Recv where
 
 /-- contents of the receiver's output device -/
 def Recv.acc (r : Recv) : List UInt8 := r.accRev.reverse
+
+/-- what the running hash has seen -/
+def Recv.fed (r : Recv) : List UInt8 := r.fedRev.reverse
+
+/-- `QXmppTransferIncomingJob::writeData`: one `write()`, no retry; `done` (= `|acc|`) grows by the reported count,
+the hash is fed the whole block unless the write failed -/
+def Recv.write (r : Recv) (pl : List UInt8) : Recv :=
+  match r.dev.accept (fun _ => r.accRev.length) pl.length with
+  | none => r
+  | some w => { r with accRev := (pl.take w).reverse ++ r.accRev, fedRev := pl.reverse ++ r.fedRev }
 
 /-- `QXmppTransferJob::terminate` + the queued `_q_terminated` -/
 def Recv.terminate (r : Recv) (cause : JError) : Recv :=
@@ -91,7 +134,7 @@ def Recv.terminate (r : Recv) (cause : JError) : Recv :=
 def Recv.checkFails (H : List UInt8 → List UInt8) (r : Recv) : Bool :=
   (r.size != 0 && r.acc.length != r.size) ||
   (match r.hash with
-   | some h => H r.acc != h
+   | some h => H r.fed != h
    | none => false)
 
 def Recv.checkData (H : List UInt8 → List UInt8) (r : Recv) : Recv :=
@@ -114,8 +157,9 @@ def recv (H : List UInt8 → List UInt8) (r : Recv) (st : Stanza) : Recv × Repl
     | .data seq payload =>
       if r.state ≠ .transfer then (r, { id := st.id, to := st.sender, err := some .itemNotFound })
       else if seq ≠ r.expected then (r, { id := st.id, to := st.sender, err := some .unexpectedRequest })
-      else ({ r with accRev := payload.reverse ++ r.accRev, expected := r.expected + 1 },
-            { id := st.id, to := st.sender, err := none })
+      else
+        -- the return value of writeData is ignored: counted and acknowledged whatever the device did
+        (({ r with expected := r.expected + 1 }).write payload, { id := st.id, to := st.sender, err := none })
     | .open bs =>
       -- no state requirement either: a finished job is put back into TransferState
       if bs > r.maxBlock then (r, { id := st.id, to := st.sender, err := some .resourceConstraint })
@@ -283,10 +327,14 @@ def run (H : List UInt8 → List UInt8) (st : St) : List Op → St × List Reply
 
 /-- state after the stream-initiation offer was accepted: the sender has emitted `<open/>` with its
 manager's block size, the receiving job waits in `StartState` holding the announced size and hash -/
-def init (bsS bsR size : Nat) (hash : Option (List UInt8)) (data : List UInt8) : St :=
+def initDev (dev : Dev) (bsS bsR size : Nat) (hash : Option (List UInt8)) (data : List UInt8) : St :=
   { s := { blockSize := bsS, rest := data },
-    r := { maxBlock := bsR, size := size, hash := hash },
+    r := { maxBlock := bsR, size := size, hash := hash, dev := dev },
     pending := some { id := 1, sender := 0, sid := 0, kind := .open bsS } }
+
+/-- the same with a receiving device that takes everything (QBuffer, a healthy file) -/
+def init (bsS bsR size : Nat) (hash : Option (List UInt8)) (data : List UInt8) : St :=
+  initDev .unlimited bsS bsR size hash data
 
 /-- `n` honest deliveries -/
 def honest (n : Nat) : List Op := List.replicate n .deliver
@@ -303,14 +351,16 @@ inductive SOp
   deriving DecidableEq, Repr
 
 /-- the receiving job in `TransferState` with the socket connected -/
-def sinit (size : Nat) (hash : Option (List UInt8)) : Recv :=
-  { maxBlock := 0, size := size, hash := hash, state := .transfer }
+def sinitDev (dev : Dev) (size : Nat) (hash : Option (List UInt8)) : Recv :=
+  { maxBlock := 0, size := size, hash := hash, state := .transfer, dev := dev }
+
+def sinit (size : Nat) (hash : Option (List UInt8)) : Recv := sinitDev .unlimited size hash
 
 def sstep (H : List UInt8 → List UInt8) (r : Recv) : SOp → Recv
   | .chunk bytes =>
     if r.state ≠ .transfer then r
     else
-      let r1 := { r with accRev := bytes.reverse ++ r.accRev }
+      let r1 := r.write bytes
       if r1.size ≠ 0 ∧ r1.acc.length ≥ r1.size then r1.checkData H else r1
   | .disconnect =>
     if r.state = .finished then r else r.checkData H
